@@ -32,6 +32,8 @@ struct FileSpec {
     size: u64,
     class: u8,
     seed: u64,
+    /// `Some(t)`: this entry is a symbolic link to the file `files[t]` (same content: `create` follows links)
+    link: Option<usize>,
 }
 
 #[derive(Clone, Debug)]
@@ -110,7 +112,7 @@ impl Case {
         json!({
             "sub_seed": self.sub_seed,
             "dirs": self.dirs,
-            "files": self.files.iter().map(|f| json!({"path": f.path, "size": f.size, "class": f.class, "seed": f.seed})).collect::<Vec<_>>(),
+            "files": self.files.iter().map(|f| json!({"path": f.path, "size": f.size, "class": f.class, "seed": f.seed, "link": f.link})).collect::<Vec<_>>(),
             "args": self.args.iter().map(|a| json!({"path": a.path, "form": a.form})).collect::<Vec<_>>(),
             "key_seeds": self.key_seeds,
             "stages": self.stages.iter().map(|s| s.to_json()).collect::<Vec<_>>(),
@@ -126,6 +128,7 @@ impl Case {
                 size: f["size"].as_u64()?,
                 class: f["class"].as_u64()? as u8,
                 seed: f["seed"].as_u64()?,
+                link: f["link"].as_u64().map(|x| x as usize),
             });
         }
         let mut args = vec![];
@@ -347,12 +350,21 @@ fn gen_case(rng: &mut Rng, idx: u64, thorough: bool) -> Case {
                 large_left -= 1;
             }
         }
-        files.push(FileSpec { path, size, class: rng.below(5) as u8, seed: rng.next_u64() });
+        files.push(FileSpec { path, size, class: rng.below(5) as u8, seed: rng.next_u64(), link: None });
     }
     if big_case && bigs_left == (if thorough { 2 } else { 1 }) {
         // a big case always has (at least) one file around 4 MiB
         let i = rng.below(files.len() as u64) as usize;
         files[i].size = *rng.pick(&[BLOCK - 1, BLOCK, BLOCK + 1]);
+    }
+    // one case in four: one more entry of the tree is a symbolic link to one of its regular files (`create`
+    // follows it: the member holds the target's bytes); placed in a directory, so that it is met by recursion
+    if rng.chance(1, 4) && !files.is_empty() {
+        let t = rng.below(files.len() as u64) as usize;
+        let parent = dirs[rng.below(dirs.len() as u64) as usize].clone();
+        let path = fresh_path(rng, &parent, &mut used, &mut allow_long);
+        let (size, class, seed) = (files[t].size, files[t].class, files[t].seed);
+        files.push(FileSpec { path, size, class, seed, link: Some(t) });
     }
     // arguments of `create`
     let mut args: Vec<ArgSpec> = vec![];
@@ -390,7 +402,7 @@ fn gen_case(rng: &mut Rng, idx: u64, thorough: bool) -> Case {
         _ => {
             // the top directory + one file outside it
             let outside = rng.pick(&["outside.bin", "x out é.txt", "o [1].dat"]).to_string();
-            files.push(FileSpec { path: outside.clone(), size: rng.range(0, 5000), class: rng.below(5) as u8, seed: rng.next_u64() });
+            files.push(FileSpec { path: outside.clone(), size: rng.range(0, 5000), class: rng.below(5) as u8, seed: rng.next_u64(), link: None });
             if rng.chance(1, 2) {
                 args.push(rel(&top));
                 args.push(rel(&outside));
@@ -405,7 +417,7 @@ fn gen_case(rng: &mut Rng, idx: u64, thorough: bool) -> Case {
     if rng.chance(1, 4) {
         let w = rng.pick(&[" lead.bin", "trail.bin ", " both ", "tab\tend\t"]).to_string();
         if !files.iter().any(|f| f.path == w) {
-            files.push(FileSpec { path: w.clone(), size: rng.range(1, 300), class: rng.below(5) as u8, seed: rng.next_u64() });
+            files.push(FileSpec { path: w.clone(), size: rng.range(1, 300), class: rng.below(5) as u8, seed: rng.next_u64(), link: None });
             let at = rng.below(args.len() as u64 + 1) as usize;
             args.insert(at, rel(&w));
         }
@@ -639,7 +651,10 @@ impl<'a> Exec<'a> {
             if let Some(parent) = p.parent() {
                 std::fs::create_dir_all(parent).expect("tree dir");
             }
-            std::fs::write(&p, &data).unwrap_or_else(|e| panic!("cannot write {}: {e}", p.display()));
+            match f.link {
+                Some(t) => { std::os::unix::fs::symlink(self.abs(&case.files[t].path), &p).unwrap_or_else(|e| panic!("cannot link {}: {e}", p.display())); self.rep.count("tree:symlinked-file"); }
+                None => std::fs::write(&p, &data).unwrap_or_else(|e| panic!("cannot write {}: {e}", p.display())),
+            }
             self.shas.push(sha256(&data));
             self.contents.push(data);
         }
